@@ -1264,7 +1264,24 @@ func init() {
 	props["C06"] = &Prop{Gen: execGen(profC06, 3000, 50000), Exec: execExec, Valid: execValid}
 	props["C08"] = &Prop{Gen: execGen(profC08, 3000, 50000), Exec: execExec, Valid: execValid}
 	props["C09"] = &Prop{Gen: c09Gen, Exec: execExec, Valid: execValid}
-	props["C11"] = &Prop{Gen: execGen(profC11, 1500, 20000), Exec: execExec, Valid: execValid}
+	// C11: executor cases with several calls on one parsed document, and argument values (lists, input
+	// objects with defaults) as literals and variable defaults of a document that is resolved twice
+	c11Exec := execGen(profC11, 1500, 20000)
+	c11Reuse := coerceGen("reuse")
+	props["C11"] = &Prop{
+		Gen: func(r *rand.Rand, tier string) []Case { return append(c11Exec(r, tier), c11Reuse(r, tier)...) },
+		Exec: func(in sx.S) sx.S {
+			if sx.Head(in) == "coerce" {
+				return coerceExec(in)
+			}
+			return execExec(in)
+		},
+		Valid: func(in sx.S) bool {
+			if sx.Head(in) == "coerce" {
+				return coerceValid(in)
+			}
+			return execValid(in)
+		}}
 	props["C10"] = &Prop{Gen: c10Gen, Exec: execExec, Valid: execValid}
 	_ = fmt.Sprint
 }
